@@ -930,6 +930,75 @@ where
     }
 }
 
+/// Read-only access to private items for the verification harness.
+#[cfg(coupe_verif)]
+pub mod verif {
+    use super::*;
+
+    /// Runs `reorder_split_scalar` on copies of the given arrays; returns the
+    /// reordered coordinates, weights, item identities and the split index.
+    pub fn reorder_split_scalar<const D: usize>(
+        coords: [Vec<f32>; D],
+        weights: Vec<i64>,
+        pivot: usize,
+        coord: usize,
+    ) -> ([Vec<f32>; D], Vec<i64>, Vec<usize>, usize) {
+        let mut coords = coords;
+        let mut weights = weights;
+        let cells: Vec<AtomicUsize> = (0..weights.len()).map(AtomicUsize::new).collect();
+        let mut parts: Vec<&AtomicUsize> = cells.iter().collect();
+        let (ids, split) = {
+            let points = array_map_mut(&mut coords, |c| &mut c[..]);
+            let items = Items {
+                points,
+                weights: &mut weights,
+                parts: &mut parts,
+            };
+            let (left, right) = super::reorder_split_scalar(items, pivot, coord);
+            let ids = left.parts.iter().chain(right.parts.iter());
+            let ids: Vec<usize> = ids.map(|p| p.load(Ordering::Relaxed)).collect();
+            (ids, left.parts.len())
+        };
+        (coords, weights, ids, split)
+    }
+
+    /// Runs `par_rcb_split` on copies of the given arrays; returns the
+    /// reordered item identities, the split index, the reported left weight
+    /// and the split position.
+    pub fn par_rcb_split<const D: usize>(
+        coords: [Vec<f32>; D],
+        weights: Vec<i64>,
+        coord: usize,
+        tolerance: f64,
+        min: f32,
+        max: f32,
+    ) -> (Vec<usize>, usize, i64, f32) {
+        let mut coords = coords;
+        let mut weights = weights;
+        let sum: i64 = weights.iter().sum();
+        let cells: Vec<AtomicUsize> = (0..weights.len()).map(AtomicUsize::new).collect();
+        let mut parts: Vec<&AtomicUsize> = cells.iter().collect();
+        let points = array_map_mut(&mut coords, |c| &mut c[..]);
+        let items = Items {
+            points,
+            weights: &mut weights,
+            parts: &mut parts,
+        };
+        let res = super::par_rcb_split(items, coord, tolerance, min, max, sum);
+        let ids = res.left.parts.iter().chain(res.right.parts.iter());
+        let ids: Vec<usize> = ids.map(|p| p.load(Ordering::Relaxed)).collect();
+        (ids, res.left.parts.len(), res.weight_left, res.split_pos)
+    }
+
+    pub fn axis_sort<const D: usize>(
+        points: &[PointND<D>],
+        permutation: &mut [usize],
+        current_coord: usize,
+    ) {
+        super::axis_sort(points, permutation, current_coord)
+    }
+}
+
 #[cfg(test)]
 mod tests {
     use itertools::Itertools as _;
